@@ -81,15 +81,16 @@ public:
   vector<vector<double>> A; // SPD (kind 0, 2) or rows q_k (kind 1)
   vector<double> w; // weights (kind 1) / quartic coefficients (kind 2)
   vector<double> m; // minimiser
-  double c, mu;
+  double c, mu, kappa;
   bool d1, d2;
   // recording
   bool record;
   vector<EvalRec>* sink;
   long evals, cap;
   bool capHit;
+  double kmax = 1e3; // upper end of the condition numbers drawn for this objective
 
-  HFn(size_t n_) : AbstractParametrizable(""), n(n_), kind(0), A(), w(), m(), c(0), mu(0), d1(true), d2(true), record(false), sink(nullptr), evals(0), cap(1000000), capHit(false)
+  HFn(size_t n_) : AbstractParametrizable(""), n(n_), kind(0), A(), w(), m(), c(0), mu(0), kappa(1), d1(true), d2(true), record(false), sink(nullptr), evals(0), cap(1000000), capHit(false)
   {
     for (size_t i = 0; i < n; ++i) addParameter_(new bpp::Parameter("x" + std::to_string(i), 0.));
   }
@@ -428,7 +429,8 @@ static void makeObjective(Rng& g, HFn& f, int kind)
   if (kind == 0 || kind == 2)
   {
     // eigenvalues in [1, kappa], kappa log-uniform in [1, 1e3]; rotation random (or axis-aligned)
-    double kappa = logUniform(g, 1., 1e3);
+    double kappa = logUniform(g, 1., f.kmax);
+    f.kappa = kappa;
     vector<double> ev(n);
     for (size_t i = 0; i < n; ++i) ev[i] = logUniform(g, 1., kappa);
     ev[0] = 1.;
@@ -591,6 +593,7 @@ public:
         double lo = a - g.unit() * (bx.has[0] ? 0.9 * (a - bx.lo[0]) : 3.);
         double hi = bb + g.unit() * (bx.has[0] ? 0.9 * (bx.hi[0] - bb) : 3.);
         b->setBracketing(bpp::BrentOneDimension::BRACKET_INWARD);
+        cfg = "inward";
         b->setInitialInterval(lo, hi);
       }
       else
@@ -659,6 +662,7 @@ public:
         quiet(*io);
         io->setMaximumNumberOfEvaluations(static_cast<unsigned>(maxEval));
         string ty = g.coin() ? bpp::MetaOptimizerInfos::IT_TYPE_STEP : bpp::MetaOptimizerInfos::IT_TYPE_FULL;
+        if (in == "DownhillSimplex") ty = bpp::MetaOptimizerInfos::IT_TYPE_FULL; // init() rebuilds the simplex: a lone step cannot converge by construction
         cfg += (cfg.empty() ? "" : "+") + in + ":" + ty;
         desc->addOptimizer(in, io, names, static_cast<unsigned short>(derivs(in)),
                            ty);
@@ -680,7 +684,7 @@ public:
     {
       Obj o;
       o.kv("e", "Reset").kv("opt", opt).kv("dim", n).kv("kind", kind == 0 ? "quad" : kind == 1 ? "cvx1" : "cvx2");
-      o.kv("pol", pol).kv("max", maxEval).kv("tk", tk).kv("inact", inactive).kv("sc", id).kv("cfg", cfg).kv("hist", hist);
+      o.kv("pol", pol).kv("max", maxEval).kv("tk", tk).kv("inact", inactive).kv("sc", id).kv("cfg", cfg).kv("hist", hist).kv("kap", static_cast<long>(f->kappa + 0.5));
       Arr b;
       for (size_t i = 0; i < n; ++i) b.add(Arr().add(bx.has[i] != 0).add(bx.il[i] != 0).add(bx.iu[i] != 0));
       o.kv("box", b);
@@ -725,6 +729,7 @@ public:
     };
 
     bool dead = false;
+    vector<shared_ptr<bpp::OptimizerInterface>> olds;
     auto guarded = [&](const std::function<void()>& fn) -> string {
       string r = outcome<bpp::Exception>(fn, id);
       if (f->capHit) r = "cap";
@@ -764,6 +769,7 @@ public:
     auto doClone = [&]() {
       if (dead) return;
       shared_ptr<bpp::OptimizerInterface> c(o->clone());
+      olds.push_back(o); // the original stays alive: a copy that still refers to it misbehaves deterministically
       o = c;
       o->addOptimizationListener(lis);
       sc.add(Ev("Clone"));
@@ -855,8 +861,8 @@ public:
           vector<double> s2(n);
           for (size_t i = 0; i < n; ++i)
           {
-            double t = g.unit();
-            s2[i] = bx.has[i] ? bx.lo[i] + (0.05 + 0.9 * t) * (bx.hi[i] - bx.lo[i]) : f->m[i] + (2. * t - 1.) * 5.;
+            s2[i] = f->m[i] + (g.coin() ? 1. : -1.) * logUniform(g, 0.01, 10.);
+            if (bx.has[i] && !(bx.lo[i] < s2[i] && s2[i] < bx.hi[i])) s2[i] = bx.lo[i] + (0.05 + 0.9 * g.unit()) * (bx.hi[i] - bx.lo[i]);
           }
           if (doInit(s2)) doOptimize(true, s2);
         }
@@ -982,15 +988,21 @@ int main(int argc, char** argv)
   bpp::ApplicationTools::error = std::make_shared<bpp::NullOutputStream>();
   Driver d(envSeed() * 2654435761ULL + 12345ULL + sub * 7919ULL);
   d.quadOnly = argInt(argc, argv, "--quad", 0) != 0;
-  long id = 0;
-  for (long k = 0; k < n; ++k)
-  {
-    string opt = only.empty() ? OPTS[k % NOPT] : only;
-    d.runOne(opt, id++);
-  }
+  // every scenario has its own generator, so a single one can be regenerated (--sc ID)
+  uint64_t base = envSeed() * 2654435761ULL + 12345ULL + sub * 7919ULL;
+  long one = argInt(argc, argv, "--sc", -1);
   if (nbr < 0) nbr = n / 5;
-  if (only.empty() || only == "Bracket")
-    for (long k = 0; k < nbr; ++k) d.runBracket(id++);
+  for (long id = 0; id < n + nbr; ++id)
+  {
+    if (one >= 0 && id != one) continue;
+    d.g = Rng(base ^ (static_cast<uint64_t>(id + 1) * 0x9e3779b97f4a7c15ULL));
+    if (id < n)
+    {
+      string opt = only.empty() ? OPTS[id % NOPT] : only;
+      d.runOne(opt, id);
+    }
+    else if (only.empty() || only == "Bracket") d.runBracket(id);
+  }
   tracer().close();
   if (showStats)
     for (const auto& kv : d.stats)
